@@ -38,7 +38,11 @@ def check(path):
             elif parts[0] == "P":
                 form, ln, a, b, c = parts[1], int(parts[2]), p(parts[3]), p(parts[4]), p(parts[5])
                 sel = list(range(ln))[a:b:c]
-                if form == "falsy":
+                if form.startswith("window:"):
+                    _, w1, w2, w3 = form.split(":")
+                    w3v = p(w3)
+                    want = fmt(sel[p(w1):p(w2):(1 if w3v is None else w3v)])
+                elif form == "falsy":
                     fk = ["false", '""', "[]", "{}", "0", "true", '"x"', None]
                     want = "[" + ",".join(fk[i % 8] for i in sel if fk[i % 8] is not None) + "]"
                 elif form == "first":
